@@ -1,0 +1,87 @@
+//go:build verif
+
+package types
+
+// Contracts for the verification harness in /verif (comment-only file; compiled only with -tags verif,
+// and even then it contains no declarations).
+
+// ---------------------------------------------------------------------------------------------
+// C17: the four modes form the adjoint-logic preorder
+//
+//           Replicable {W, C}
+//          /                  \
+//   Affine {W}            Multicast {C}
+//          \                  /
+//               Linear {}
+
+//@ spec base(m Modality) bool = is(m, ReplicableMode) || is(m, MulticastMode) || is(m, AffineMode) || is(m, LinearMode)
+//@ spec ge(a Modality, b Modality) bool = base(a) && base(b) && (is(a, ReplicableMode) || tag(a) == tag(b) || is(b, LinearMode))
+//@ spec allowsW(m Modality) bool = is(m, ReplicableMode) || is(m, AffineMode)
+//@ spec allowsC(m Modality) bool = is(m, ReplicableMode) || is(m, MulticastMode)
+//@ spec toLower(s string) string
+//@ spec lowerCaseSpelling(s string) bool = s == "r" || s == "rep" || s == "replicable" || s == "m" || s == "mul" || s == "multicast" || s == "a" || s == "aff" || s == "affine" || s == "l" || s == "lin" || s == "linear"
+//@ spec spellTag(s string) int = ite(s == "r" || s == "rep" || s == "replicable", typeid(ReplicableMode),
+//@        ite(s == "m" || s == "mul" || s == "multicast", typeid(MulticastMode),
+//@        ite(s == "a" || s == "aff" || s == "affine", typeid(AffineMode),
+//@        ite(s == "l" || s == "lin" || s == "linear", typeid(LinearMode), typeid(InvalidMode)))))
+
+//@ contract interface Modality.CanBeDownshiftedTo(self, to)
+//@   requires base(self) && base(to)
+//@   ensures C17.down: result == ge(self, to)
+//@   safety C17, C09
+//@   pure
+
+//@ contract interface Modality.CanBeUpshiftedTo(self, to)
+//@   requires base(self) && base(to)
+//@   ensures C17.up: result == ge(to, self)
+//@   safety C17, C09
+//@   pure
+
+//@ contract interface Modality.AllowsWeakening(self)
+//@   ensures C17.weaken: result == allowsW(self)
+//@   safety C17, C09
+//@   pure
+
+//@ contract interface Modality.AllowsContraction(self)
+//@   ensures C17.contract: result == allowsC(self)
+//@   safety C17, C09
+//@   pure
+
+//@ contract interface Modality.Equals(self, other)
+//@   ensures C17.equals: result == (tag(self) == tag(other))
+//@   safety C17, C09
+//@   pure
+
+//@ contract interface Modality.Copy(self)
+//@   ensures C17.copy: result != nil && tag(result) == tag(self)
+//@   safety C17, C09
+
+// The two non-modes panic when asked about shifts; the interface-level precondition excludes them.
+//@ contract (*InvalidMode).CanBeDownshiftedTo
+//@   unreachable
+//@ contract (*InvalidMode).CanBeUpshiftedTo
+//@   unreachable
+//@ contract (*UnsetMode).CanBeDownshiftedTo
+//@   unreachable
+//@ contract (*UnsetMode).CanBeUpshiftedTo
+//@   unreachable
+
+//@ contract StringToMode
+//@   ensures C17.spelling: result != nil && tag(result) == spellTag(toLower(input))
+//@   safety C17, C09
+
+//@ contract DefaultMode
+//@   ensures C17.default: result != nil && is(result, ReplicableMode)
+//@   safety C17, C09
+
+// Order laws, as lemmas over the contracts above (the methods are proved equal to ge/allowsW/allowsC).
+//@ lemma C17.refl: forall a Modality :: base(a) ==> ge(a, a)
+//@ lemma C17.trans: forall a Modality, b Modality, c Modality :: ge(a, b) && ge(b, c) ==> ge(a, c)
+//@ lemma C17.antisym: forall a Modality, b Modality :: ge(a, b) && ge(b, a) ==> tag(a) == tag(b)
+//@ lemma C17.top: forall a Modality, r Modality :: base(a) && is(r, ReplicableMode) ==> ge(r, a)
+//@ lemma C17.bottom: forall a Modality, l Modality :: base(a) && is(l, LinearMode) ==> ge(a, l)
+//@ lemma C17.incomparable: forall a Modality, m Modality :: is(a, AffineMode) && is(m, MulticastMode) ==> !ge(a, m) && !ge(m, a)
+//@ lemma C17.monoW: forall a Modality, b Modality :: ge(a, b) && allowsW(b) ==> allowsW(a)
+//@ lemma C17.monoC: forall a Modality, b Modality :: ge(a, b) && allowsC(b) ==> allowsC(a)
+//@ lemma C17.structural: forall r Modality, m Modality, a Modality, l Modality :: is(r, ReplicableMode) && is(m, MulticastMode) && is(a, AffineMode) && is(l, LinearMode) ==> allowsW(r) && allowsC(r) && !allowsW(m) && allowsC(m) && allowsW(a) && !allowsC(a) && !allowsW(l) && !allowsC(l)
+//@ lemma C17.abbrev: spellTag("r") == spellTag("rep") && spellTag("rep") == spellTag("replicable") && spellTag("m") == spellTag("mul") && spellTag("mul") == spellTag("multicast") && spellTag("a") == spellTag("aff") && spellTag("aff") == spellTag("affine") && spellTag("l") == spellTag("lin") && spellTag("lin") == spellTag("linear") && spellTag("rep") == typeid(ReplicableMode) && spellTag("mul") == typeid(MulticastMode) && spellTag("aff") == typeid(AffineMode) && spellTag("lin") == typeid(LinearMode)
